@@ -204,8 +204,26 @@ def run(tier, seed, rng):
             newv = {"x": "7a7a"} if ch in ('tag', 'name') else 6
             other = {'XP3': 'XP3L', 'XP3L': 'XP3'}.get(cls_, 'XPt')
             xcases.append(dict(cls=cls_, op='eq', raw=raw.hex(), offset=0, other=other, change=dict(path=[ch], value=newv))); xmeta.append((cls_, raw, ch))
+    # described fields (Auto / AutoLength): equality is about the values the packets HOLD (what was parsed), not about what the
+    # descriptor would compute: wires that differ in the described byte only give unequal packets; == never runs into user code failing
+    xsrc += ("from bisturi.descriptor import Auto, AutoLength\n"
+             "class XFrame(Packet):\n    crc = Int(1).describe(Auto(lambda pkt: sum(pkt.body) & 0xff))\n    body = Data(3)\n    e = Em().aligned(4)\n"
+             "class XNote(Packet):\n    length = Int(1).describe(AutoLength('msg'))\n    flag = Int(1)\n    msg = Data(length).when(flag)\n"
+             "class XLen(Packet):\n    length = Int(1).describe(AutoLength('a'))\n    a = Data(2)\n    t = Int(1)\n")
+    two = [('XFrame', b'\x06\x01\x02\x03', b'\x07\x01\x02\x03', False), ('XFrame', b'\x06\x01\x02\x03', b'\x06\x01\x02\x03', True), ('XFrame', b'\x00\x01\x02\x03', b'\x06\x03\x02\x01', False),
+           ('XNote', b'\x00\x00', b'\x00\x00', True), ('XNote', b'\x00\x00', b'\x05\x00', False), ('XNote', b'\x02\x01ab', b'\x02\x01ab', True), ('XNote', b'\x02\x01ab', b'\x02\x01ac', False),
+           ('XLen', b'\x02ab\x07', b'\x09ab\x07', False), ('XLen', b'\x09ab\x07', b'\x09ab\x07', True), ('XLen', b'\x02ab\x07', b'\x02ab\x08', False)]
+    n_single = len(xcases)
+    for cls_, r1, r2, same in two:
+        xcases.append(dict(cls=cls_, op='eq_two', raw=r1.hex(), raw2=r2.hex(), offset=0))
     xres = run_impl(os.path.join(VERIF, 'harness', 'impl_pkt.py'), dict(header=decl.HEADER_PY, blocks=[dict(name='embed', src=xsrc)], modname='c20x', cases=xcases))
     embed_failures = []
+    for (cls_, r1, r2, same), o in zip(two, xres['outcomes'][n_single:]):
+        oo = o.get('ok') or {}
+        want = dict(eq=same, ne=not same, eq_rev=same, eq_self=[True, True, False], repr_same=same)
+        if {k: (list(v) if isinstance(v, (list, tuple)) else v) for k, v in oo.items()} != want:
+            embed_failures.append(dict(kind='oracle', sig='eq-described', what=f"two parses of {r1.hex()} and {r2.hex()} (a class with a described field) must compare {'equal' if same else 'unequal'}: expected {want}",
+                                       classes=xsrc, cls=cls_, raw=r1.hex(), raw2=r2.hex(), offset=0, observed=o))
     for (cls_, raw, ch), o in zip(xmeta, xres['outcomes']):
         oo = o.get('ok') or {}
         bad = []
